@@ -88,6 +88,11 @@ def run_property(prop, repo):
         res.cannot(prop + ".engine", "-", "cannot-interpret:" + str(e)[:100], str(e))
     except Exception as e:  # same fail-closed behaviour as ./check
         res.cannot(prop + ".internal", "-", "internal:" + type(e).__name__, repr(e))
+    try:
+        from . import rules as _rules
+        _rules.run_dependencies(ctx, res, prop)
+    except Exception as e:
+        res.cannot(prop + ".internal", "-", "internal:deps:" + type(e).__name__, repr(e))
     known = {k["key"] for k in report.load_known().get("findings", []) if k["property"] == prop}
     return [f_ for f_ in res.findings if f_.key not in known]
 
